@@ -33,6 +33,23 @@ def mutations(nodes, rnd):
                 m = copy.deepcopy(nodes)
                 m[i]["processor"] = alt
                 out.append(("processor", m, i))
+            # every segment of a shorthand (`rename:SRC:DST`, `delete:KEY`, `slice:OP:COLL`) is part of what the node does
+            segs = n["processor"].split(":")
+            if len(segs) >= 2 and segs[0] in ("rename", "delete", "slice"):
+                for j in range(1, len(segs)):
+                    new = list(segs)
+                    if segs[0] == "slice":
+                        new[j] = {"TOp1": "TOp2", "TOp2": "TOp1", "TOp0": "TOp1Def", "TColl": "TColl2", "TColl2": "TColl"}.get(segs[j])
+                        if new[j] is None:
+                            continue
+                    else:
+                        new[j] = rnd.choice([segs[j] + "x", segs[j].replace(".", "_") if "." in segs[j] else segs[j] + ".v",
+                                             segs[j].upper() if segs[j].upper() != segs[j] else segs[j].lower()])
+                    if new[j] == segs[j]:
+                        continue
+                    m = copy.deepcopy(nodes)
+                    m[i]["processor"] = ":".join(new)
+                    out.append((f"processor-shorthand-segment:{segs[0]}:{j}", m, i))
         # a parameter value at every path
         for path, leaf in leaf_paths(n.get("parameters") or {}):
             m = copy.deepcopy(nodes)
